@@ -136,7 +136,8 @@ class FortranRegularExpressions:
     )
     PP_REGEX: Pattern = compile(r"[ ]*#[ ]*(if |ifdef|ifndef|else|elif|endif)", I)
     PP_DEF: Pattern = compile(
-        r"[ ]*#[ ]*(define|undef|undefined)[ ]*(\w+)(\([ ]*([ \w,]*?)[ ]*\))?",
+        r"[ ]*#[ ]*(define|undef|undefined)[ ]*(\w+)"
+        r"(\([ ]*((?:[\w,]+(?:[ ]+[\w,]+)*)?)[ ]*\))?",
         I,
     )
     PP_DEF_TEST: Pattern = compile(r"(![ ]*)?defined[ ]*\([ ]*(\w*)[ ]*\)$", I)
